@@ -63,3 +63,20 @@ Q("units-restore-getattr", "main.py",
 Q("units-scaling-nested-guard", "main.py",
   "    if gradient_scaler is not None and checkpoint is None:\n        sf.scaling_factor = gradient_scaler(x, grad, lb, ub)\n",
   "    if checkpoint is None and gradient_scaler is not None:\n        sf.scaling_factor = gradient_scaler(x, grad, lb, ub)\n", ["UNITS", "SCALER"])
+
+# ---- SCALEUSE / MATSOWN (round 2)
+M("scaleuse-theta-after-reboot", "main.py",
+  "                mats = LBFGSB_MATRICES(n)\n", "                mats = LBFGSB_MATRICES(n)\n                mats.theta = sf.scaling_factor\n",
+  ["SCALEUSE", "MATSOWN"], canary=True, note="R2_C17-b")
+M("scaleuse-step-cap-divided", "main.py",
+  "            max_steplength_user,\n            is_boxed,\n            sf,\n", "            max_steplength_user / sf.scaling_factor,\n            is_boxed,\n            sf,\n",
+  ["SCALEUSE"], note="the user cap has no counterpart in the explicitly scaled run")
+M("scaleuse-tolerance-scaled", "main.py",
+  "                elif is_f0_min_change_reached(f0, f0_old, ftol, istate):\n", "                elif is_f0_min_change_reached(f0, f0_old, ftol * sf.scaling_factor, istate):\n", ["SCALEUSE"])
+Q("scaleuse-local-alias", "main.py",
+  "    has_displayed_results = False\n", "    has_displayed_results = False\n    fac_ = sf.scaling_factor\n", ["SCALEUSE", "UNITS"],
+  also=[("main.py", "                elif is_f0_target_reached(f0 / sf.scaling_factor, _ftarget, istate):\n", "                elif is_f0_target_reached(f0 / fac_, _ftarget, istate):\n")])
+M("matsown-w-rescaled-in-cauchy", "cauchy.py",
+  "    x_cp: NDArrayFloat = x.copy()\n", "    x_cp: NDArrayFloat = x.copy()\n    mats.W = mats.W * 1.0\n", ["MATSOWN"], canary=True)
+M("matsown-theta-reset-in-main", "main.py",
+  "        d = xbar - x\n", "        d = xbar - x\n        mats.theta = 1.0\n", ["MATSOWN"])
